@@ -58,6 +58,9 @@ func (d *Drv) regObs(op *Op) {
 			inst.typ = o
 		} else {
 			o := ecs.Observe(d.ecsEvent(spec.Ev))
+			if d.viaNew() {
+				o = (*ecs.Observer)(nil).New(d.ecsEvent(spec.Ev)) // the nil-receiver constructor
+			}
 			if len(spec.Comps) > 0 {
 				o.For(comps(spec.Comps)...)
 			}
